@@ -9,6 +9,8 @@ vector is mu in all N coefficients; R7 bootstrap = woKS into a private sample of
 Not decided: output noise; that the external product multiplies (C09).
 R8 the FFT bootstrapping key is a complete conversion: its key-switching key copy has the source key's (n = k*N, t,
 basebit) and every row, and all n bootstrapping rows are converted (sibling agreement with init_LweBootstrappingKey).
+R9 the bootstrap consumes its input sample only through modSwitchFromTorus32(., 2N) and writes its result only through the
+rotate-and-extract call (the output is a function of the rounded phase).
 """
 from sa import bounds, summ, sym
 from sa.facts import Program
@@ -143,16 +145,19 @@ def evaluate(chk, v, suffixes):
             ok6 = len(tv) == 1 and (tv[0]["loops"][0]["lo"], tv[0]["loops"][0]["cmp"], tv[0]["loops"][0]["hi"]) == (ZERO, "<", N) and \
                 tv[0]["lv"][0] == "idx" and tv[0]["lv"][2] == tv[0]["loops"][0]["var"] and sym.show(a[1]) in sym.show(tv[0]["lv"][1])
             why6 = "statements: %s" % [summ.show_piece(p)[:100] for p in tv]
-            if ok6 and tv[0]["guards"]:
+            if ok6 and tv[0]["guards"] and tv[0]["guards"] != br[0]["guards"]:
+                # (a fill under exactly the conditions of its consumer, e.g. after the early return of a shortcut path, is complete)
                 ok6 = False
-                why6 = "the test vector is filled only when %s: a later call with another mu reuses the old contents" % (
-                    " && ".join(sym.show(g) for g in tv[0]["guards"]))
+                why6 = "the test vector is filled only when %s, but rotated and extracted when %s: a later call with another mu reuses the old contents" % (
+                    " && ".join(sym.show(g) for g in tv[0]["guards"]), " && ".join(sym.show(g) for g in br[0]["guards"]) or "always")
             if ok6 and not (tv[0]["line"] < br[0]["line"]):
                 ok6, why6 = False, "the test vector is filled after it is used"
             if ok6 and sym.root_of(a[1]) is not None and sym.root_of(a[1])[0] == "glob":
                 ok6, why6 = False, "the test vector %s is a static object shared between calls" % sym.show(a[1])
             chk.require(ok6, "R6", "%s: the test vector holds mu in all N coefficients on every call" % f.name, where=f.where,
                         ok="testvect->coefsT[i] = mu over [0,N), unconditionally, passed as v", bad=why6, variant=vn)
+            # ---------------- R9 the result is a function of the rounded phase only
+            check_input_dependence(chk, v, f, ps, x, br[0])
             ok_args = a[0] == sym.sym(res) and a[6] == P(bk, "bk_params")
             # ---------------- blindRotateAndExtract: R3a, R4
             g = v.fn("tfhe_blindRotateAndExtract" + suffix)
@@ -275,6 +280,63 @@ class _Sub:
 
     def assume(self, *a, **k):
         return self.chk.assume(*a, **k)
+
+
+# ------------------------------------------------------------------------------ R9: the input enters only through the modulus switch
+def check_input_dependence(chk, v, f, ps, xname, consumer):
+    """The bootstrap's output is +-mu according to the phase of the sample ROUNDED to Z_2N, so inside the function the input
+    sample may be consumed only as the argument of modSwitchFromTorus32(., 2N): any other use of x->b or x->a[i] (a
+    comparison, a shortcut that looks at the raw value) makes the result depend on something that is not a function of the
+    rounded phase; and nothing may write the result on a path that does not go through the rotate-and-extract call."""
+    X = sym.sym(xname)
+    bad = []
+
+    def go(u, line):
+        if not isinstance(u, tuple) or not u:
+            return
+        if not isinstance(u[0], str):
+            for y in u:
+                go(y, line)
+            return
+        if u[0] == "call" and u[1] == "modSwitchFromTorus32":
+            return
+        if sym.root_of(u) == X and (u[0] == "idx" or (u[0] == "fld" and u[2] == "b")):
+            bad.append((line, sym.show(u)))
+            return
+        if u[0] == "poly":
+            for m, _ in u[1]:
+                for y in m:
+                    go(y, line)
+            return
+        for y in u[1:]:
+            if isinstance(y, tuple):
+                go(y, line)
+    for p in ps:
+        go(p.get("val"), p["line"])
+        if not (p["kind"] == "call" and p["name"] == "modSwitchFromTorus32"):
+            for a in p.get("args") or []:
+                go(a, p["line"])
+        for g_ in p.get("guards") or []:
+            go(g_, p["line"])
+        for lp in p.get("loops") or []:
+            for lk in ("lo", "hi", "cond"):
+                go(lp.get(lk), p["line"])
+    res = sym.sym(f.params[0]["n"])
+    other_writers = [p for p in ps if p["kind"] == "call" and p is not consumer and p["args"] and p["args"][0] == res and not p["eff"].get("noreturn")]
+    other_writers += [p for p in ps if p["kind"] == "store" and sym.root_of(p["lv"]) == res]
+    problems = []
+    if bad:
+        problems.append("the input is used outside modSwitchFromTorus32(., 2N): %s" % "; ".join(sorted({"%s at line %s" % (u, ln) for ln, u in bad})[:3]))
+    if other_writers and not bad:
+        # a second way of producing the result that looks only at rounded values: not decided here
+        chk.broken("%s: the result is also written by %s (line %s), a path this rule does not analyse" % (
+            f.name, other_writers[0].get("name", "a store"), other_writers[0]["line"]))
+    if other_writers and bad:
+        problems.append("and the result is then written by %s (line %s) without going through the rotate-and-extract call" % (
+            other_writers[0].get("name", "a store"), other_writers[0]["line"]))
+    chk.require(not problems, "R9", "%s: the result depends on the input sample only through its rounding to Z_2N" % f.name, where=f.where,
+                ok="x->b and every x->a[i] are consumed by modSwitchFromTorus32(., 2N) only; the result is written by the rotate-and-extract call only",
+                bad="; ".join(problems)[:500], variant=v.name)
 
 
 # ------------------------------------------------------------------------------ R8: the FFT key is a complete conversion
